@@ -12,7 +12,7 @@ from .. import gen, probe
 from ..common import Result, rng_for, Inconclusive
 from .c15 import SETS
 
-RULE = ("random histories of 20..60 operations (set / set_untracked / scope / sub-context / sub-context component / accessor) over "
+RULE = ("random histories of 20..60 operations (set / set_untracked / scope / sub-context / sub-context component / accessor / subscriber memo) over "
         "context trees of depth <= 3 and 3 locale sets; an evaluation is one read of one handle or accessor after one step; "
         "non-trivial = history with >=1 sub-context and >=3 sets; distinct by hash of the operation list")
 
@@ -24,15 +24,32 @@ def gen_history(rng, S, nops):
     handle_reg = [0]               # handle -> register
     handle_base = [True]           # can be scoped / used for accessors and as parent
     depth = [0]
-    accessors = []                 # (handle)
+    accessors = []                 # [handle, memo value | None (unconstrained) | "live"]
     expected = [([regs[h] for h in handle_reg], [])]
     for _ in range(nops):
         r = rng.random()
         if r < 0.45:
             h = rng.randrange(len(handle_reg))
             l = gen.pick(rng, names)
-            ops.append({"op": "set" if rng.random() < 0.7 else "set_untracked", "ctx": h, "locale": l})
+            tracked = rng.random() < 0.7
+            if not tracked and rng.random() < 0.5:
+                # the pair "untracked write, then the tracked write of the same locale": the second must still notify
+                ops.append({"op": "set_untracked", "ctx": h, "locale": l})
+                regs[handle_reg[h]] = l
+                for a in accessors:
+                    if a[1] != "live" and handle_reg[a[0]] == handle_reg[h] and a[1] != l:
+                        a[1] = None
+                expected.append(([regs[r_] for r_ in handle_reg], [acc_want(a, regs, handle_reg) for a in accessors]))
+                aliases = [i for i, r_ in enumerate(handle_reg) if r_ == handle_reg[h]]
+                h = gen.pick(rng, aliases)
+                tracked = True
+            ops.append({"op": "set" if tracked else "set_untracked", "ctx": h, "locale": l})
             regs[handle_reg[h]] = l
+            for a in accessors:
+                if a[1] != "live" and handle_reg[a[0]] == handle_reg[h]:
+                    # "Set the locale and notify all subscribers" / "does not notify": after an untracked write a
+                    # subscriber may legitimately show either value until the next tracked write
+                    a[1] = l if tracked else (a[1] if a[1] == l else None)
         elif r < 0.6:
             bases = [i for i, b in enumerate(handle_base) if b]
             h = gen.pick(rng, bases)
@@ -53,12 +70,21 @@ def gen_history(rng, S, nops):
             handle_base.append(True)
             depth.append((depth[parent] + 1) if parent is not None else 0)
         else:
-            bases = [i for i, b in enumerate(handle_base) if b]
-            h = gen.pick(rng, bases)
-            ops.append({"op": "accessor", "ctx": h, "flavour": gen.pick(rng, ["t", "tu", "t_display", "tu_string"])})
-            accessors.append(h)
-        expected.append(([regs[r_] for r_ in handle_reg], [regs[handle_reg[h]] for h in accessors]))
+            if rng.random() < 0.45:
+                h = rng.randrange(len(handle_reg))
+                ops.append({"op": "accessor", "ctx": h, "flavour": gen.pick(rng, ["memo_locale", "memo_t"])})
+                accessors.append([h, regs[handle_reg[h]]])
+            else:
+                bases = [i for i, b in enumerate(handle_base) if b]
+                h = gen.pick(rng, bases)
+                ops.append({"op": "accessor", "ctx": h, "flavour": gen.pick(rng, ["t", "tu", "t_display", "tu_string"])})
+                accessors.append([h, "live"])
+        expected.append(([regs[r_] for r_ in handle_reg], [acc_want(a, regs, handle_reg) for a in accessors]))
     return ops, expected
+
+
+def acc_want(a, regs, handle_reg):
+    return regs[handle_reg[a[0]]] if a[1] == "live" else a[1]
 
 
 def run(tier, seed, replay=None):
@@ -113,7 +139,12 @@ def run(tier, seed, replay=None):
                                       {"set": si, "ops": ops[:step + 1], "step": step, "handle": h, "observed": rd, "expected": want})
                         bad = True
             for a, (acc, want) in enumerate(zip(st["accessors"], want_acc)):
+                if want is None:
+                    res.count("subscriber-unconstrained-after-untracked-write")
+                    continue
                 res.ev()
+                if acc["flavour"].startswith("memo"):
+                    res.count("subscriber-read")
                 if acc["text"] != "hello@" + want:
                     res.violation("C16/accessor-shows-other-locale/" + acc["flavour"], "history %d step %d (%s): accessor %d (%s on handle %d) renders %r, model says %r" % (
                         i, step, ops[step], a, acc["flavour"], acc["ctx"], acc["text"], "hello@" + want), {"set": si, "ops": ops[:step + 1], "step": step})
